@@ -136,6 +136,9 @@ func main() {
 	if t := os.Getenv("VERIF_TIER"); t != "" && *tier == "" {
 		*tier = t
 	}
+	if *tier == "thorough" {
+		os.Setenv("LOWCHECK_FULLSSA", "1")
+	}
 	c := &Ctx{Dir: *repo, Tier: *tier, worlds: map[Config]*World{}, errs: map[Config]error{}, Only: *only}
 	var ids []string
 	if *prop == "all" {
